@@ -178,6 +178,7 @@ def run(ctx):
     run_compiled_pairs(ctx, max(20, n // 10))
     run_units(ctx, max(10, n // 15))
     choicelib.run_stateful(ctx, 40 if ctx.tier == 'quick' else 600)
+    choicelib.run_half_step(ctx, 60 if ctx.tier == 'quick' else 600)
     choicelib.run_scaling(ctx, 25 if ctx.tier == 'quick' else 400)
     choicelib.run_rounded_totals(ctx)
 
